@@ -283,8 +283,10 @@ func isConstStr(p *walk.Path, s string) func(walk.DV) bool {
 	}
 }
 
-func runC06R4(c *Ctx) {
-	rule := "R4-validator-structure"
+func runC06R4(c *Ctx) { runRedirectValidators(c, "R4-validator-structure", true) }
+
+// runRedirectValidators: accepting paths of IsValidRedirect (optional), IsEndpointAllowed and isHostnameAllowed (C06.R4, also C08).
+func runRedirectValidators(c *Ctx, rule string, withRedirect bool) {
 	ivr := c.Fn(rule, "(*pkg/app/redirect.validator).IsValidRedirect")
 	iea := c.Fn(rule, "pkg/util.IsEndpointAllowed")
 	iha := c.Fn(rule, "pkg/util.isHostnameAllowed")
@@ -299,7 +301,7 @@ func runC06R4(c *Ctx) {
 	}
 	c.Walk(rule, ivr, func(p *walk.Path) {
 		rv, ok := p.ReturnDV(0)
-		if !ok {
+		if !ok || !withRedirect {
 			return
 		}
 		if b, k := p.Truth(rv, p.End()); k && !b {
